@@ -314,37 +314,54 @@ def run(tier):
     shutil.rmtree(wdir, ignore_errors=True)
     os.makedirs(wdir, exist_ok=True)
     progs = [Prog(v, "%d" % i, RENAME) for i, v in enumerate(vecs)]
-    nsess = 4
+    nsess = 4 if tier == "quick" else 6
     shards = [list(range(i, len(vecs), nsess)) for i in range(nsess)]
     obs = [None] * len(vecs)
     errors = []
 
+    CH = 120          # programs per consulted file (the dev-profile binary loads slowly)
+
+    def setup(top, path):
+        for lib in LIBS:
+            out, st = top.query("use_module(library(%s))." % lib, "a", timeout=120)
+            if st != "ok" or "true" not in out:
+                raise common.ToolError("could not load library(%s) in the toplevel: %r" % (lib, out[-200:]))
+        out, st = top.query("consult('%s')." % path, "a", timeout=900)
+        if st != "ok" or "true" not in out:
+            raise common.ToolError("could not consult the programs in the toplevel: %r" % out[-300:])
+
     def session(si, idxs):
-        path = os.path.join(wdir, "prog%d.pl" % si)
-        with open(path, "w") as f:
-            f.write(HELPER_TEXT)
-            for i in idxs:
-                f.write(progs[i].text)
         top = None
         try:
             top = Toplevel(binary)
-            for lib in LIBS:
-                out, st = top.query("use_module(library(%s))." % lib, "a")
-                if st != "ok" or "true" not in out:
-                    raise common.ToolError("could not load library(%s) in the toplevel: %r" % (lib, out[-200:]))
-            out, st = top.query("consult('%s')." % path, "a", timeout=120)
-            if st != "ok" or "true" not in out:
-                raise common.ToolError("could not consult the programs in the toplevel: %r" % out[-300:])
-            for n, i in enumerate(idxs):
-                mode = ";" if (i // nsess) % 2 == 0 else "a"
-                body, st = top.query(progs[i].qtext, mode)
-                obs[i] = (body, st, mode)
-                if st in ("dead",):
-                    top.close()
-                    top = Toplevel(binary)
-                    for lib in LIBS:
-                        top.query("use_module(library(%s))." % lib, "a")
-                    top.query("consult('%s')." % path, "a", timeout=120)
+            for ci in range(0, len(idxs), CH):
+                chunk = idxs[ci:ci + CH]
+                path = os.path.join(wdir, "prog%d_%d.pl" % (si, ci))
+                with open(path, "w") as f:
+                    if ci == 0:
+                        f.write(HELPER_TEXT)
+                    for i in chunk:
+                        f.write(progs[i].text)
+                if ci == 0:
+                    setup(top, path)
+                else:
+                    out, st = top.query("consult('%s')." % path, "a", timeout=900)
+                    if st != "ok" or "true" not in out:
+                        raise common.ToolError("could not consult the programs in the toplevel: %r" % out[-300:])
+                for i in chunk:
+                    mode = ";" if (i // nsess) % 2 == 0 else "a"
+                    body, st = top.query(progs[i].qtext, mode)
+                    obs[i] = (body, st, mode)
+                    if st == "dead":
+                        # start again with the helpers and this chunk's programs
+                        top.close()
+                        top = Toplevel(binary)
+                        hp = os.path.join(wdir, "re%d_%d.pl" % (si, i))
+                        with open(hp, "w") as f:
+                            f.write(HELPER_TEXT)
+                            for j in chunk:
+                                f.write(progs[j].text)
+                        setup(top, hp)
         except Exception as e:  # noqa
             errors.append(e)
         finally:
